@@ -163,6 +163,8 @@ func (ts *TypeState) CheckFrom(fn *ssa.Function, v ssa.Value, start ssa.Instruct
 			if a, ok := x.Addr.(*ssa.Alloc); ok {
 				if bv, isC := ConstBool(x.Val); isC {
 					evs = append(evs, event{kind: "setFlag", flagCell: a, flagVal: bv})
+				} else if bt, isB := x.Val.Type().Underlying().(*types.Basic); isB && bt.Kind() == types.Bool {
+					evs = append(evs, event{kind: "setFlagUnknown", flagCell: a})
 				}
 			}
 		case *ssa.Send:
@@ -221,8 +223,32 @@ func (ts *TypeState) CheckFrom(fn *ssa.Function, v ssa.Value, start ssa.Instruct
 		}
 		return evs
 	}
+	// the cell of the flag guarding a deferred release (at most one per function)
+	var theFlag ssa.Value
+	for _, b := range fn.Blocks {
+		for _, in := range b.Instrs {
+			if _, isDefer := in.(*ssa.Defer); isDefer {
+				for _, e := range evOf(in) {
+					if e.kind == "deferFlag" {
+						theFlag = e.flagCell
+					}
+				}
+			}
+		}
+	}
 	apply := func(st tsState, in ssa.Instruction) tsState {
 		for _, e := range evOf(in) {
+			switch e.kind {
+			case "setFlagUnknown":
+				if theFlag == nil || e.flagCell == theFlag {
+					st.flag = -1
+				}
+				continue
+			case "setFlag":
+				if theFlag != nil && e.flagCell != theFlag {
+					continue
+				}
+			}
 			switch e.kind {
 			case "release":
 				if st.handed && !ts.early[fn] {
@@ -273,6 +299,16 @@ func (ts *TypeState) CheckFrom(fn *ssa.Function, v ssa.Value, start ssa.Instruct
 			// acquisition failed
 			if okFalse != nil && f.Op == token.ILLEGAL && f.V == okFalse && !f.Truth {
 				st.held = false
+			}
+			// a branch on the value of the release flag
+			if theFlag != nil && f.Op == token.ILLEGAL {
+				if u, ok := f.V.(*ssa.UnOp); ok && u.Op == token.MUL && u.X == theFlag {
+					if f.Truth {
+						st.flag = 1
+					} else {
+						st.flag = 0
+					}
+				}
 			}
 			// select index == i  (sent)
 			if f.Op == token.EQL {
